@@ -379,6 +379,8 @@ func (r *Run) Finish() {
 		var have int64
 		if strings.HasPrefix(q.key, "distinct:") {
 			have = int64(len(r.sets[strings.TrimPrefix(q.key, "distinct:")]))
+		} else if strings.HasPrefix(q.key, "max:") {
+			have = r.maxes[strings.TrimPrefix(q.key, "max:")]
 		} else if q.key == "distinct_nontrivial" {
 			have = int64(len(r.distinct))
 		} else {
